@@ -187,7 +187,7 @@ impl Check for C02 {
         "C02"
     }
     fn plan(&self, tier: Tier) -> Plan {
-        let mut p = Plan::new(tier.pick(4_000, 200_000), tier.pick(35.0, 480.0));
+        let mut p = Plan::new(tier.pick(40_000, 4_000_000), tier.pick(30.0, 420.0));
         p.cpu_budget_s = 120.0;
         p
     }
